@@ -267,8 +267,12 @@ where
         assert_eq!(dim, 2, "Gaussian2D: expected dimension=2.");
 
         let mean_tensor =
-            Tensor::<B, 2>::from_floats([[self.mean[0], self.mean[1]]], &B::Device::default())
-                .reshape([1, 2])
+            // (`from_floats` would round the parameters to f32 whatever the backend's precision)
+            Tensor::<B, 2>::from_data(
+                burn::tensor::TensorData::new(vec![self.mean[0], self.mean[1]], [1, 2]),
+                &B::Device::default(),
+            )
+            .reshape([1, 2])
                 .expand([n_chains, 2]);
 
         let delta = positions.clone() - mean_tensor;
@@ -279,8 +283,10 @@ where
             self.inv_cov[1][0],
             self.inv_cov[1][1],
         ];
-        let inv_cov_t =
-            Tensor::<B, 2>::from_floats([inv_cov_data], &B::Device::default()).reshape([2, 2]);
+        let inv_cov_t = Tensor::<B, 2>::from_data(
+            burn::tensor::TensorData::new(inv_cov_data.to_vec(), [2, 2]),
+            &B::Device::default(),
+        );
 
         let z = delta.clone().matmul(inv_cov_t); // shape [n_chains, 2]
         let quad = (z * delta).sum_dim(1).squeeze(1); // shape [n_chains]
@@ -301,7 +307,10 @@ where
         assert_eq!(dim, 2, "Gaussian2D: expected dimension=2.");
 
         let mean_tensor =
-            Tensor::<B, 1>::from_floats([self.mean[0], self.mean[1]], &B::Device::default());
+            Tensor::<B, 1>::from_data(
+                burn::tensor::TensorData::new(vec![self.mean[0], self.mean[1]], [2]),
+                &B::Device::default(),
+            );
 
         let delta = position.clone() - mean_tensor;
 
@@ -309,7 +318,10 @@ where
             [self.inv_cov[0][0], self.inv_cov[0][1]],
             [self.inv_cov[1][0], self.inv_cov[1][1]],
         ];
-        let inv_cov_t = Tensor::<B, 2>::from_floats(inv_cov_data, &B::Device::default());
+        let inv_cov_t = Tensor::<B, 2>::from_data(
+            burn::tensor::TensorData::new(inv_cov_data.concat(), [2, 2]),
+            &B::Device::default(),
+        );
 
         let z = delta.clone().reshape([1_i32, 2_i32]).matmul(inv_cov_t);
         let quad = (z.reshape([2_i32]) * delta).sum();
